@@ -610,6 +610,27 @@ pub fn deep_recipe(r: &mut Rng, family: Family, n: u32) -> Recipe {
     }
 }
 
+/// Two independently built, deeply nested INCOMPLETE types that have to be unified with each
+/// other: a left-nested chain of pairs over fresh witnesses, ((W0 × W1) × W2) × ..., composed
+/// with take^n(iden) whose source is ((X × D1) × D2) × ... . Unification then descends n levels
+/// (every other deep family meets its deep type through a variable, in one step).
+pub fn deep_unify_recipe(r: &mut Rng, family: Family, n: u32) -> Recipe {
+    let mut ops = vec![GOp::Witness];
+    for _ in 0..n {
+        ops.push(GOp::Witness);
+        ops.push(GOp::Pair);
+    }
+    ops.push(GOp::Iden);
+    ops.push(GOp::Rep(Box::new(GOp::Take), n));
+    ops.push(GOp::Comp);
+    Recipe {
+        family,
+        ops,
+        close: if r.bool() { Close::Late } else { Close::Early },
+        wit_seed: r.next_u64(),
+    }
+}
+
 /// Large words and type bombs.
 pub fn heavy_recipe(r: &mut Rng, family: Family) -> Recipe {
     let mut ops = Vec::new();
